@@ -84,7 +84,7 @@ def main():
         result["error"] = "diff does not apply in memory"
     else:
         for p in PROPS:
-            v, rep = analyse_variant(p, ov)
+            v, rep = analyse_variant(p, ov, inherited_known=True)
             if v != "holds":
                 detail = rep if isinstance(rep, str) else [f"{i.verdict} {i.rule} {i.site} {i.function}: {i.why[:200]}" for i in rep.instances if i.verdict not in ("HOLDS", "KNOWN")][:6]
                 if not isinstance(rep, str):
